@@ -420,7 +420,8 @@ theorem openLogs_bal (cid : Nat) (logs : List Mod) (s : State) (G : List Inst) (
   apply openLogsFrom_bal
   have : SB (openWriter 0 (ev s [.cbReg cid])) G :=
     ((quiet_ev s [.cbReg cid] (by simp [evInst])).trans (openWriter_quiet _ _)).sb h
-  simpa [nq] using this
+  have h' : SB { openWriter 0 (ev s [.cbReg cid]) with dlogger := cid + 1 } G := this
+  simpa [nq] using h'
 
 /-! cancel -/
 
